@@ -1384,6 +1384,7 @@ def classify_failure(fn: ast.AST, displayed: str, v: Tuple[str, str], reports: L
     exprs = [e for e in list(fn.args.defaults) + list(fn.args.kw_defaults) +
              [a.annotation for a in ast.walk(fn.args) if isinstance(a, ast.arg)] + [fn.returns] if e is not None]
     src_text = ast.unparse(fn.args) + (ast.unparse(fn.returns) if fn.returns is not None else "")
+    raw_exprs = exprs
     exprs = [_unquote_all(e) for e in exprs]         # a tuple written inside a string annotation counts too
     if displayed.strip() == "(...)":
         bad = [r for r in reports if "bad signature" in r]
@@ -1408,12 +1409,21 @@ def classify_failure(fn: ast.AST, displayed: str, v: Tuple[str, str], reports: L
             if any(_simulate_comma_loss(e) is None for e in exprs):
                 return ("display-unparsable:singleton-or-empty-tuple", v[1] + " -- (C15 tuple:singleton-comma-lost / tuple:empty-index)")
         else:
+            # would the display be right if the source had been written without those commas? then that is the whole cause
+            class T(ast.NodeTransformer):
+                def visit_Tuple(self, n: ast.Tuple) -> ast.AST:
+                    self.generic_visit(n)
+                    return n.elts[0] if len(n.elts) == 1 and not isinstance(n.elts[0], ast.Starred) else n
+
+                def visit_Constant(self, n: ast.Constant) -> ast.AST:
+                    if isinstance(n.value, str):
+                        e = _parse_str_expr(n.value)
+                        if e is not None and any(isinstance(x, ast.Tuple) and len(x.elts) == 1 for x in ast.walk(e)):
+                            return ast.Constant(ast.unparse(self.visit(e)))
+                    return n
             try:
-                back = ast.parse("def f" + displayed + ": pass").body[0]
-                bexprs = [e for e in list(back.args.defaults) + list(back.args.kw_defaults) +
-                          [a.annotation for a in ast.walk(back.args) if isinstance(a, ast.arg)] + [back.returns] if e is not None]
-                sims = [_simulate_comma_loss(e) for e in exprs]
-                if len(sims) == len(bexprs) and all(sm is not None and _dump(_unquote(sm)) == _dump(_unquote(be)) for sm, be in zip(sims, bexprs)):
+                sim = ast.parse(ast.unparse(T().visit(ast.parse(ast.unparse(fn)).body[0]))).body[0]
+                if oracle(sim, displayed) is None:
                     return ("singleton-tuple-comma-lost", v[1] + " -- exactly the one-element tuples lost their comma (C15 tuple:singleton-comma-lost)")
             except SyntaxError:
                 pass
